@@ -26,7 +26,9 @@ macro_rules! uci_harness {
     };
 }
 
-fn is_root_move(m: Move) -> bool { (m.to as usize) < br() && has_moves_at(0, 0) && m.to < g().nmoves[0] }
+/// the move is one of the root's moves, with all of its attributes (a move of another position that merely
+/// shares the index is not)
+fn is_root_move(m: Move) -> bool { (m.to as usize) < br() && has_moves_at(0, 0) && m.to < g().nmoves[0] && m == mk_move(0, m.to as usize) }
 
 /// exactly one bestmove line; a legal move of the root when it has one, 0000 only when it has none
 fn check_one_bestmove() {
@@ -88,6 +90,21 @@ fn run_script_depth(depth: u8, warm_then_newgame: bool) {
     let mut f = Flounder::new();
     if warm_then_newgame {
         u::go(&mut f, &["go", "depth", "1"]);
+        // whatever earlier searches and position commands can leave behind: a killer move, a history score,
+        // a cached entry, recorded game history, a different current position (each written through the
+        // engine's own data structures; the search model above never records history cutoffs itself)
+        {
+            let (a, b) = (sym::u8() as usize, sym::u8() as usize); sym::assume(a < 64 && b < 64);
+            let v = sym::i32(); sym::assume(v != 0);
+            let ply = sym::u8(); sym::assume(ply < 8);
+            let km = mk_move(0, 0);
+            let sm = u::searcher_mut(&mut f);
+            crate::history::vh::set_cell(crate::search::vh::history_mut(sm), a, b, v);
+            crate::search::vh::killers_mut(sm).store(km, ply);
+            crate::search::vh::tt_mut(sm).store(sym::u64(), sym::i32(), Some(km), sym::u8(), crate::transposition::Bounds::Exact);
+            crate::search::vh::rep_mut(sm).push(sym::u64());
+            if has_moves_at(0, 0) { u::board_mut(&mut f).make_move(&km); }
+        }
         u::command(&mut f, "ucinewgame");
         // field by field: everything a fresh engine has
         let s = u::searcher(&f);
